@@ -2,6 +2,7 @@
 from __future__ import annotations
 
 import ast
+import re
 import re._constants as sc
 
 from .. import astq, rx
@@ -128,7 +129,7 @@ def run(ctx):
     rows_e = [r for r in effect_rows(ctx, enc, GenRule(ctx, enc.module), None, budget=900000) if r.returns]
     ctx.sites(R2, len(rows_e), 4, "rows of the encoder")
     ALLOWED = f"p:{enc.params()[1]}"
-    n_raw = n_esc = 0
+    n_raw = n_esc = n_unrec = 0
     seen_e = set()
     for r in rows_e:
         # the byte under consideration on this row: the operand of `<byte>.decode() in allowed_chars` / `<byte> == b'%'`
@@ -146,7 +147,8 @@ def run(ctx):
         if not kept and not exts:
             continue
         if len(cands) != 1:
-            raise AnalysisError(f"C10-R2: encoder row tests {sorted(cands)}: cannot identify the byte under consideration (idiom not recognised)")
+            n_unrec += 1  # this row tests the byte in a way the rule does not recognise: provenance fallback below (DESIGN 13.2)
+            continue
         B = next(iter(cands))
         in_allowed = r.cmp(T("decode", B), "in", ALLOWED)
         ascii_ = r.cmp(T("ord", B), "<", "128")
@@ -173,7 +175,7 @@ def run(ctx):
             if key not in seen_e:
                 seen_e.add(key)
                 ctx.ob(R2, enc.qual, "everything else is written as %XX of the byte", ok, (a_[0][:100] if a_ else ""), witness=r.witness(), node=enc.node)
-    if n_raw == 0 and n_esc == 0:
+    if (n_raw == 0 and n_esc == 0) or n_unrec:
         # the encoder is written in a way the rule does not recognise (DESIGN 13.2): decide provenance only - the result
         # depends on the component and the allowed set alone, and membership in the allowed set is what is tested
         tests = any(isinstance(k_, tuple) and len(k_) == 4 and k_[0] == "cmp" and k_[2] == "in" and k_[3] == ALLOWED for r in rows_e for k_ in r.st.ts)
@@ -184,7 +186,7 @@ def run(ctx):
                     foreign.add(x)
         ctx.ob(R2, enc.qual, "encoder idiom not recognised: the result depends only on the component and the allowed set, and membership in the allowed set is tested (provenance only)",
                tests and not foreign, f"tests membership: {tests}; other inputs: {sorted(foreign)}", node=enc.node)
-    else:
+    if n_raw or n_esc:
         ctx.sites(R2, n_raw, 1, "raw-byte writes on encoder rows")
         ctx.sites(R2, n_esc, 1, "escaped writes on encoder rows")
     et = m.func(f"{URL}._encode_target")
@@ -205,12 +207,24 @@ def run(ctx):
         pieces = list(parts[1]) if parts[0] == "cat" else [norm(r.ret)]
         enc_terms = {norm(T("_encode_invalid_chars", *c_)) for c_ in calls}
         ok_build = all(pc in enc_terms or pc == K("?") for pc in pieces)
-        ok = sets_used in (["g:_PATH_CHARS"], ["g:_PATH_CHARS", "g:_QUERY_CHARS"]) and from_groups and ok_build and len(pieces) == (1 if len(calls) == 1 else 3)
-        ctx.ob(R2, et.qual, f"_encode_target = encoded path [+ '?' + encoded query] with the path/query sets ({sets_used})", ok,
+        def is_set(t_, name):
+            """the allowed-set argument is the module's set of that name, by name or by (folded) value"""
+            if t_ == f"g:{name}":
+                return True
+            o_, v_ = destruct(t_)
+            try:
+                return o_ == "const" and isinstance(v_, (set, frozenset, str)) and set(v_) == set(fold.need(URL, name))
+            except Exception:
+                return False
+        ok_sets = (len(sets_used) == 1 and is_set(sets_used[0], "_PATH_CHARS")) or (len(sets_used) == 2 and is_set(sets_used[0], "_PATH_CHARS") and is_set(sets_used[1], "_QUERY_CHARS"))
+        ok = ok_sets and from_groups and ok_build and len(pieces) == (1 if len(calls) == 1 else 3)
+        ctx.ob(R2, et.qual, f"_encode_target = encoded path [+ '?' + encoded query] with the path/query sets ({[x_[:30] for x_ in sets_used]})", ok,
                "" if ok else f"result {r.ret[:120]}: a part of the target reaches the request line unencoded", witness=r.witness(), node=et.node)
-    tr = fold.need(URL, "_TARGET_RE")
-    gp = rx.groups(rx.parse(tr.pattern, tr.flags))
-    ctx.ob(R2, URL, "_TARGET_RE drops the fragment (no capturing group after '#')", len(gp) == 2 and "(?:#.*)?" in tr.pattern, tr.pattern)
+    if any(isinstance(n_, ast.Name) and n_.id == "_TARGET_RE" for n_ in ast.walk(et.node)):
+        tr = fold.need(URL, "_TARGET_RE")
+        gp = rx.groups(rx.parse(tr.pattern, tr.flags))
+        holds = sorted(g_ for g_, sub_ in gp.items() if "#" in rx.any_chars(sub_, dotall=bool(tr.flags & re.DOTALL)))
+        ctx.ob(R2, URL, "_TARGET_RE drops the fragment (no capturing group can hold '#')", bool(gp) and not holds, f"{tr.pattern}: groups {holds} can contain '#'")
 
     # ------------------------------------------------------------------ R3 headers through the validating primitive
     R3 = ctx.rule("C10-R3", "headers go through the validating primitive: in HTTPConnection.request header lines are produced only by self.putheader and the request line only by self.putrequest; the putheader override delegates every non-skipped value to the stdlib putheader, which validates name and value", "E8")
